@@ -8,6 +8,7 @@ import (
 	"go/constant"
 	"go/token"
 	"go/types"
+	"regexp"
 	"sort"
 	"strings"
 
@@ -120,6 +121,7 @@ func checkC05(ctx *Ctx, r *Report) {
 	c05GeneratedNamesUnique(ctx, r)
 	c15ReferenceSiblings(ctx, r)
 	c07ReferenceByBareName(ctx, r)
+	c05FourthRound(ctx, r)
 }
 
 // ---------------------------------------------------------------------------
@@ -1849,8 +1851,10 @@ func c05RefFilePattern(ctx *Ctx, r *Report) {
 		}
 		n++
 		pattern := constant.StringVal(tv.Value)
-		escaped := strings.Contains(pattern, `\.(json|yml)`) || strings.Contains(pattern, `\.(yml|json)`)
-		anchored := strings.Contains(pattern, `)($|`) || strings.HasSuffix(pattern, `)$`)
+		// a literal dot, then a group of extensions (letters, `?` for an optional one), then the anchor
+		ext := regexp.MustCompile(`\\\.\((?:[a-z?]+\|)*[a-z?]+\)(\(\$\||\$$)`)
+		escaped := ext.MatchString(pattern)
+		anchored := escaped
 		r.Check(escaped && anchored, "frontier/ref-file-pattern", "openapi.getRefName file-reference pattern", c.Pos(), "the extension is a literal dot followed by json / yml, at the end or before `/` or `#`",
 			"the pattern "+pattern+" matches any character before json / yml anywhere in the reference: a same-document reference to a schema named Geojson or Appyml is taken for a reference into a file, and names no object")
 		return true
@@ -1936,4 +1940,262 @@ func c05GeneratedNamesUnique(ctx *Ctx, r *Report) {
 	})
 	r.Count("objects created under computed names", n)
 	r.Floor("objects created under computed names", 3)
+}
+
+// c05FourthRound — third hunting pass.
+// (a) OpenAPI: only the direct entries of components.schemas are declared as objects, so walkRef may emit a
+// reference only for a $ref it has tested to designate such an entry; on the other path it has to go on with the
+// schema the reference resolves to (schema.Value). (b) CUE: only the top-level fields of another package are
+// objects there: declareReference / stringOrIntegerFromEnum emit a (constant) reference into another package only
+// after a test on the number of selectors of the path. (c) A struct generated from a disjunction keeps the
+// disjunction (branches, discriminator mapping) in a hint: a pass whose OnDisjunction handler rewrites discriminator
+// mappings needs an OnStruct handler that reads that hint, or the mapping the unmarshallers are generated from keeps
+// the old names.
+func c05FourthRound(ctx *Ctx, r *Report) {
+	// (a)
+	if fn := ctx.LookupMethod("internal/openapi", "generator", "walkRef"); fn == nil {
+		r.Undecided("anchor lost: openapi.generator.walkRef")
+	} else {
+		fd, p := ctx.DeclOf(fn)
+		info := p.TypesInfo
+		tested, inlines := false, false
+		for _, st := range fd.Body.List {
+			is, ok := st.(*ast.IfStmt)
+			if !ok {
+				continue
+			}
+			onRef := false
+			ast.Inspect(is.Cond, func(m ast.Node) bool {
+				if c, ok := m.(*ast.CallExpr); ok {
+					for _, a := range c.Args {
+						if s, ok := ast.Unparen(a).(*ast.SelectorExpr); ok && s.Sel.Name == "Ref" {
+							onRef = true
+						}
+					}
+				}
+				return true
+			})
+			if !onRef {
+				continue
+			}
+			tested = true
+			ast.Inspect(is.Body, func(m ast.Node) bool {
+				if c, ok := m.(*ast.CallExpr); ok {
+					if f := callee(info, c); f != nil && f.Pkg() == p.Types && strings.HasPrefix(f.Name(), "walk") {
+						for _, a := range c.Args {
+							if s, ok := ast.Unparen(a).(*ast.SelectorExpr); ok && s.Sel.Name == "Value" {
+								inlines = true
+							}
+						}
+					}
+				}
+				return true
+			})
+		}
+		r.Count("hunted clauses of the parsers (4th round)", 1)
+		r.Check(tested && inlines, "frontier/openapi-ref-to-component", "openapi.walkRef only refers to declared component schemas", fd.Pos(), "a $ref that is not a direct entry of components.schemas is replaced by the schema it resolves to",
+			"walkRef turns every $ref into a reference named after the last segment of its text: `#/components/schemas/Dashboard/properties/time` becomes a reference to an object `time` that is declared nowhere (only the direct entries of components.schemas are)")
+	}
+	// (b)
+	if p := ctx.Pkg("internal/simplecue"); p != nil {
+		info := p.TypesInfo
+		n := 0
+		selectorsTestBefore := func(path []ast.Node, call ast.Node) bool {
+			// an `if … Selectors() … { … return }` among the statements that precede the call in an enclosing block
+			for i := len(path) - 1; i >= 0; i-- {
+				blk, ok := path[i].(*ast.BlockStmt)
+				if !ok {
+					continue
+				}
+				for _, st := range blk.List {
+					if st.Pos() >= call.Pos() {
+						break
+					}
+					is, ok := st.(*ast.IfStmt)
+					if !ok || len(is.Body.List) == 0 {
+						continue
+					}
+					if _, ok := is.Body.List[len(is.Body.List)-1].(*ast.ReturnStmt); !ok {
+						continue
+					}
+					if strings.Contains(exprString(is.Cond), ".Selectors()") {
+						return true
+					}
+				}
+			}
+			return false
+		}
+		for _, file := range p.Syntax {
+			for _, d := range file.Decls {
+				fd, ok := d.(*ast.FuncDecl)
+				if !ok || fd.Body == nil || (fd.Name.Name != "declareReference" && fd.Name.Name != "stringOrIntegerFromEnum") {
+					continue
+				}
+				var stack []ast.Node
+				ast.Inspect(fd.Body, func(m ast.Node) bool {
+					if m == nil {
+						stack = stack[:len(stack)-1]
+						return true
+					}
+					stack = append(stack, m)
+					c, ok := m.(*ast.CallExpr)
+					if !ok {
+						return true
+					}
+					what := ""
+					if sel, ok := c.Fun.(*ast.SelectorExpr); ok && sel.Sel.Name == "externalReferenceFunc" {
+						what = "a reference through externalReferenceFunc"
+					}
+					if f := callee(info, c); f != nil && f.Name() == "NewConstantReferenceType" {
+						what = "a constant reference"
+					}
+					if what == "" {
+						return true
+					}
+					n++
+					ok2 := selectorsTestBefore(stack, c)
+					if !ok2 && what == "a constant reference" {
+						// the foreign case is the else-part of `if refPkg == g.schema.Package`: look inside the if/else that precedes
+						for _, st := range enclosingBlock(stack).List {
+							if is, ok := st.(*ast.IfStmt); ok && st.Pos() < c.Pos() && is.Else != nil {
+								ast.Inspect(is.Else, func(q ast.Node) bool {
+									if inner, ok := q.(*ast.IfStmt); ok && strings.Contains(exprString(inner.Cond), ".Selectors()") && len(inner.Body.List) > 0 {
+										if _, ok := inner.Body.List[len(inner.Body.List)-1].(*ast.ReturnStmt); ok {
+											ok2 = true
+										}
+									}
+									return true
+								})
+							}
+						}
+					}
+					r.Check(ok2, "frontier/cue-nested-external-value", fmt.Sprintf("simplecue.%s emits %s", fd.Name.Name, what), c.Pos(), "only after the number of selectors of the path has been tested",
+						fmt.Sprintf("simplecue.%s emits %s into another package for any path: `common.#Dashboard.time` is reduced to its last selector and becomes a reference to common.time, an object the package common does not have (only its top-level fields are declared)", fd.Name.Name, what))
+					return true
+				})
+			}
+		}
+		r.Count("references into other packages emitted by the CUE front-end", n)
+		r.Floor("references into other packages emitted by the CUE front-end", 2)
+	}
+	// (c)
+	if p := ctx.Pkg("internal/ast/compiler"); p != nil {
+		info := p.TypesInfo
+		storesMapping := func(fn *types.Func) bool {
+			seen := map[*types.Func]bool{}
+			var rec func(fn *types.Func, depth int) bool
+			rec = func(fn *types.Func, depth int) bool {
+				if fn == nil || seen[fn] || depth > 2 {
+					return false
+				}
+				seen[fn] = true
+				fd, _ := ctx.DeclOf(fn)
+				if fd == nil || fd.Body == nil {
+					return false
+				}
+				found := false
+				ast.Inspect(fd.Body, func(m ast.Node) bool {
+					switch x := m.(type) {
+					case *ast.AssignStmt:
+						for _, l := range x.Lhs {
+							if strings.Contains(exprString(l), "DiscriminatorMapping") {
+								found = true
+							}
+						}
+					case *ast.CallExpr:
+						if f := callee(info, x); f != nil && f.Pkg() == p.Types && rec(f, depth+1) {
+							found = true
+						}
+					}
+					return true
+				})
+				return found
+			}
+			return rec(fn, 0)
+		}
+		readsHint := func(fn *types.Func) bool {
+			fd, _ := ctx.DeclOf(fn)
+			if fd == nil || fd.Body == nil {
+				return false
+			}
+			found := false
+			ast.Inspect(fd.Body, func(m ast.Node) bool {
+				if id, ok := m.(*ast.Ident); ok {
+					if c, ok := info.Uses[id].(*types.Const); ok && c.Name() == "HintDiscriminatedDisjunctionOfRefs" {
+						found = true
+					}
+				}
+				return true
+			})
+			return found
+		}
+		n := 0
+		for _, file := range p.Syntax {
+			ast.Inspect(file, func(m ast.Node) bool {
+				cl, ok := m.(*ast.CompositeLit)
+				if !ok {
+					return true
+				}
+				if nt := namedOf(info.TypeOf(cl)); nt == nil || nt.Obj().Name() != "Visitor" {
+					return true
+				}
+				var onDisj, onStruct, onRef *types.Func
+				for _, el := range cl.Elts {
+					kv, ok := el.(*ast.KeyValueExpr)
+					if !ok {
+						continue
+					}
+					var h *types.Func
+					if sel, ok := kv.Value.(*ast.SelectorExpr); ok {
+						h, _ = info.Uses[sel.Sel].(*types.Func)
+					}
+					switch exprString(kv.Key) {
+					case "OnDisjunction":
+						onDisj = h
+					case "OnStruct":
+						onStruct = h
+					case "OnRef":
+						onRef = h
+					}
+				}
+				if onDisj == nil || !storesMapping(onDisj) {
+					return true
+				}
+				// a pass that changes names: its OnRef handler stores a referred type
+				renames := false
+				if onRef != nil {
+					if fd, _ := ctx.DeclOf(onRef); fd != nil && fd.Body != nil {
+						ast.Inspect(fd.Body, func(q ast.Node) bool {
+							if as, ok := q.(*ast.AssignStmt); ok {
+								for _, l := range as.Lhs {
+									if strings.HasSuffix(exprString(l), ".ReferredType") {
+										renames = true
+									}
+								}
+							}
+							return true
+						})
+					}
+				}
+				if !renames {
+					return true
+				}
+				n++
+				r.Check(onStruct != nil && readsHint(onStruct), "traverse/hinted-disjunction-follows", ctx.FuncName(onDisj)+" has a struct handler for the disjunction kept in hints", cl.Pos(), "the OnStruct handler reads the disjunction_of_refs hint",
+					"the pass rewrites discriminator mappings of disjunctions but has no OnStruct handler reading the `disjunction_of_refs` hint: a struct generated by disjunction_to_type keeps the old names in the mapping the Go and Java unmarshallers are generated from (`var cat Cat` — undefined)")
+				return true
+			})
+		}
+		r.Count("passes rewriting discriminator mappings", n)
+		r.Floor("passes rewriting discriminator mappings", 2)
+	}
+}
+
+func enclosingBlock(stack []ast.Node) *ast.BlockStmt {
+	for i := len(stack) - 1; i >= 0; i-- {
+		if b, ok := stack[i].(*ast.BlockStmt); ok {
+			return b
+		}
+	}
+	return &ast.BlockStmt{}
 }
